@@ -8,7 +8,7 @@ import common
 from families.arena import ORACLE_RE, DIFF_RE  # read-only reuse of the line formats
 
 ROOT = common.ROOT
-HARNESS = os.path.join(ROOT, "harness_vec")
+HARNESS = os.environ.get("BV_VEC_HARNESS", os.path.join(ROOT, "harness_vec"))  # override: validation against a scratch worktree
 CORPUS = os.path.join(ROOT, "corpus", "vec")
 
 
@@ -120,11 +120,11 @@ def project(ctx, diffs):
     return out
 
 
-def jobs_for(ctx, mult=1, seed_shift=0):
+def jobs_for(ctx, mult=1, seed_shift=0, profiles=None):
     spec = ctx.spec
     scale = (spec.get("thorough_scale", 25) if ctx.tier == "thorough" else 1) * mult
     jobs, k = [], 0
-    for (prof, plans, ops) in spec["profiles"]:
+    for (prof, plans, ops) in (profiles or spec["profiles"]):
         total = plans * scale
         per = max(1, min(total, max(60, total // 6)))
         n = 0
@@ -144,20 +144,23 @@ def run(ctx, mult=1, seed_shift=0, corpus=True):
     drv, err = build_driver(ctx)
     if drv is None:
         return {"infra_error": "bvdrv_vec does not build: " + err[-800:], "oracle_fails": [], "diffs": []}
-    bins = [("dev", bvh)]
-    if ctx.tier == "thorough":
+    bins = [("dev", bvh, None)]
+    # release profile (no overflow checks, no debug assertions): everything in thorough, a
+    # smaller batch in quick where the spec asks for one
+    rel_profiles = None if ctx.tier == "thorough" else ctx.spec.get("quick_release")
+    if ctx.tier == "thorough" or rel_profiles:
         rel, err = build_harness(ctx, release=True)
         if rel:
-            bins.append(("rel", rel))
+            bins.append(("rel", rel, rel_profiles))
         else:
             return {"infra_error": "harness_vec (release) does not build: " + err[-800:], "oracle_fails": [], "diffs": []}
     jobs = []
     if corpus:
         for i, f in enumerate(sorted(glob.glob(os.path.join(CORPUS, "*.plan")))):
-            for name, b in bins:
+            for name, b, _ in bins:
                 jobs.append((b, ["replay", f], f"{name}_corpus{i}"))
-    for name, b in bins:
-        for args, tag in jobs_for(ctx, mult, seed_shift):
+    for name, b, profs in bins:
+        for args, tag in jobs_for(ctx, mult, seed_shift, profs):
             jobs.append((b, args, f"{name}_{tag}"))
     t = time.time()
     with ThreadPoolExecutor(max_workers=14) as ex:
